@@ -1,91 +1,155 @@
-(* Cisco/TunnelNames.v — "equivalent up to generated object names": the oracle of Cisco/Tunnel.v does not
-   depend on the names of the group-policies.  Renaming them injectively, together with the references to them
-   in tunnel-group sections and users, leaves the semantics unchanged. *)
+(* Cisco/TunnelNames.v — "equivalent up to generated object names": the oracle of Cisco/Tunnel.v does not depend on
+   the names of ACLs, address pools and group-policies.  Renaming them injectively, together with the references to
+   them, leaves the semantics unchanged, provided every reference names an existing object. *)
 From Coq Require Import List String Bool Arith.
 From NA Require Import Base.Str Cisco.Vpn.
 From NA Require Import Cisco.Tunnel.
 Import ListNotations.
 Open Scope string_scope.
 
-Section Rename.
-Variable rho : string -> string.
-Hypothesis rho_inj : forall a b, rho a = rho b -> a = b.
+(* every reference names an object that exists (the strict device never enters another one: TunnelKnown.v) *)
+Definition refs_known (d : tdev) : Prop :=
+  forall b l k n, In b (all_blocks d) -> In l b -> line_ref l = Some (k, n) -> exists_obj k n d = true.
+Definition refs_knownb (d : tdev) : bool :=
+  forallb (fun b : block => forallb (fun l => match line_ref l with Some (k, n) => exists_obj k n d | None => true end) b) (all_blocks d).
+Lemma refs_knownb_sound d : refs_knownb d = true -> refs_known d.
+Proof.
+  unfold refs_knownb, refs_known. intros H b l k n Hb Hl R.
+  rewrite forallb_forall in H. specialize (H b Hb). rewrite forallb_forall in H. specialize (H l Hl).
+  rewrite R in H. exact H.
+Qed.
 
-Definition rename_line (l : words) : words :=
-  match line_ref l with
-  | Some (RGp, g) => [key_of l; rho g]
-  | _ => l
+Section Rename.
+Variables ra rp rg : string -> string.
+Hypothesis ra_inj : forall a b, ra a = ra b -> a = b.
+Hypothesis rp_inj : forall a b, rp a = rp b -> a = b.
+Hypothesis rg_inj : forall a b, rg a = rg b -> a = b.
+
+(* references to ACLs and pools (the lines of group-policies and users) *)
+Definition rename_leaf (l : words) : words :=
+  match line_ref l, l with
+  | Some (RAcl, _), [a; b; c] => [a; b; ra c]
+  | Some (RPool, _), [a; b; c] => [a; b; rp c]
+  | _, _ => l
   end.
-Definition rename_gps (d : tdev) : tdev :=
-  tupd d (td_acls d) (td_pools d)
-       (map (fun g : string * block => (rho (fst g), snd g)) (td_gps d))
+(* ... and to group-policies (the lines of tunnel-group sections and users) *)
+Definition rename_line (l : words) : words :=
+  match line_ref l, l with
+  | Some (RGp, _), [a; b] => [a; rg b]
+  | _, _ => rename_leaf l
+  end.
+Definition rename_all (d : tdev) : tdev :=
+  tupd d (map (fun a : string * list words => (ra (fst a), snd a)) (td_acls d))
+       (map (fun p : string * words => (rp (fst p), snd p)) (td_pools d))
+       (map (fun g : string * block => (rg (fst g), map rename_leaf (snd g))) (td_gps d))
        (map (fun t : string * (string * list (string * block)) =>
                (fst t, (fst (snd t), map (fun s : string * block => (fst s, map rename_line (snd s))) (snd (snd t))))) (td_tgs d))
        (map (fun u : string * block => (fst u, map rename_line (snd u))) (td_users d))
        (td_mode d).
 
-Lemma vlookup_rename {A} g (l : list (string * A)) :
-  vlookup (rho g) (map (fun x : string * A => (rho (fst x), snd x)) l) = vlookup g l.
+Lemma vlookup_rename {A B} (rho : string -> string) (f : A -> B) :
+  (forall a b, rho a = rho b -> a = b) ->
+  forall g (l : list (string * A)),
+  vlookup (rho g) (map (fun x : string * A => (rho (fst x), f (snd x))) l) = option_map f (vlookup g l).
 Proof.
-  induction l as [|[k v] l IH]; [reflexivity|]. cbn [map vlookup fst snd].
+  intros inj g l. induction l as [|[k v] l IH]; [reflexivity|]. cbn [map vlookup fst snd].
   destruct (String.eqb g k) eqn:E.
   - apply String.eqb_eq in E. subst k. rewrite String.eqb_refl. reflexivity.
   - assert (E' : String.eqb (rho g) (rho k) = false).
-    { apply String.eqb_neq. intros H. apply rho_inj in H. apply String.eqb_neq in E. contradiction. }
+    { apply String.eqb_neq. intros H. apply inj in H. apply String.eqb_neq in E. contradiction. }
     rewrite E'. exact IH.
 Qed.
 
-Lemma expand_leaf_rename d l : expand_leaf (rename_gps d) l = expand_leaf d l.
-Proof. reflexivity. Qed.
-
-(* every reference to a group-policy names one that exists (the strict device never enters another one) *)
-Definition gps_known (d : tdev) : Prop :=
-  forall b l g, In b (all_blocks d) -> In l b -> line_ref l = Some (RGp, g) -> vhas g (td_gps d) = true.
-
-Lemma gp_sem_rename d g : vhas g (td_gps d) = true -> gp_sem (rename_gps d) (rho g) = gp_sem d g.
-Proof.
-  unfold gp_sem, vhas. cbn [rename_gps tupd td_gps]. rewrite vlookup_rename.
-  destruct (vlookup g (td_gps d)) as [b|]; [|discriminate]. intros _. reflexivity.
-Qed.
-
-Lemma line_ref_gp l g : line_ref l = Some (RGp, g) ->
-  exists k, l = [k; g] /\ (String.eqb k "default-group-policy" || String.eqb k "vpn-group-policy")%bool = true.
+(* shapes of the lines that refer to something *)
+Lemma line_ref_shape l k n : line_ref l = Some (k, n) ->
+  match k with
+  | RGp => exists a, l = [a; n]
+  | _ => exists a b, l = [a; b; n]
+  end.
 Proof.
   unfold line_ref. destruct l as [|a [|b [|c [|x r]]]]; try discriminate.
-  - destruct (String.eqb a "default-group-policy") eqn:E1.
-    + intros H. injection H as <-. exists a. rewrite E1. split; reflexivity.
-    + destruct (String.eqb a "vpn-group-policy") eqn:E2; [|discriminate].
-      intros H. injection H as <-. exists a. rewrite E2, orb_true_r. split; reflexivity.
+  - destruct (String.eqb a "default-group-policy"); [intros H; injection H as <- <-; exists a; reflexivity|].
+    destruct (String.eqb a "vpn-group-policy"); [intros H; injection H as <- <-; exists a; reflexivity | discriminate].
   - destruct (negb (String.eqb b "value")); [discriminate|].
-    destruct (String.eqb a "vpn-filter"); [discriminate|].
-    destruct (String.eqb a "split-tunnel-network-list"); [discriminate|].
-    destruct (String.eqb a "address-pools"); discriminate.
+    destruct (String.eqb a "vpn-filter"); [intros H; injection H as <- <-; exists a, b; reflexivity|].
+    destruct (String.eqb a "split-tunnel-network-list"); [intros H; injection H as <- <-; exists a, b; reflexivity|].
+    destruct (String.eqb a "address-pools"); [intros H; injection H as <- <-; exists a, b; reflexivity | discriminate].
+Qed.
+(* the kind of a reference depends on the words in front of the name only *)
+Lemma line_ref3 a b c c' k : line_ref [a; b; c] = Some (k, c) -> line_ref [a; b; c'] = Some (k, c').
+Proof.
+  unfold line_ref. destruct (negb (String.eqb b "value")); [discriminate|].
+  destruct (String.eqb a "vpn-filter"); [intros H; injection H as <-; reflexivity|].
+  destruct (String.eqb a "split-tunnel-network-list"); [intros H; injection H as <-; reflexivity|].
+  destruct (String.eqb a "address-pools"); [intros H; injection H as <-; reflexivity | discriminate].
+Qed.
+Lemma line_ref2 a b b' k : line_ref [a; b] = Some (k, b) -> line_ref [a; b'] = Some (k, b').
+Proof.
+  unfold line_ref. destruct (String.eqb a "default-group-policy"); [intros H; injection H as <-; reflexivity|].
+  destruct (String.eqb a "vpn-group-policy"); [intros H; injection H as <-; reflexivity | discriminate].
 Qed.
 
-Lemma line_ref_pair k g : (String.eqb k "default-group-policy" || String.eqb k "vpn-group-policy")%bool = true ->
-  line_ref [k; g] = Some (RGp, g).
+Lemma expand_leaf_rename d l :
+  (forall k n, line_ref l = Some (k, n) -> exists_obj k n d = true) ->
+  expand_leaf (rename_all d) (rename_leaf l) = expand_leaf d l.
 Proof.
-  intros H. unfold line_ref. destruct (String.eqb k "default-group-policy"); [reflexivity|].
-  simpl in H. rewrite H. reflexivity.
-Qed.
-
-Lemma expand_line_rename d l :
-  (forall g, line_ref l = Some (RGp, g) -> vhas g (td_gps d) = true) ->
-  expand_line (rename_gps d) (rename_line l) = expand_line d l.
-Proof.
-  intros K. unfold rename_line, expand_line.
+  intros K. unfold rename_leaf, expand_leaf.
   destruct (line_ref l) as [[[| |] n]|] eqn:R.
-  - rewrite R. apply expand_leaf_rename.
-  - rewrite R. apply expand_leaf_rename.
-  - destruct (line_ref_gp l n R) as (k & -> & Hk). cbn [key_of].
-    rewrite (line_ref_pair k (rho n) Hk). cbn [key_of].
-    rewrite (gp_sem_rename d n (K n eq_refl)). reflexivity.
-  - rewrite R. apply expand_leaf_rename.
+  - destruct (line_ref_shape l RAcl n R) as (a & b & ->).
+    rewrite (line_ref3 a b n (ra n) RAcl R). cbn [key_of rename_all tupd td_acls].
+    rewrite (vlookup_rename ra (fun x => x) ra_inj).
+    specialize (K RAcl n eq_refl). cbn [exists_obj] in K. unfold vhas in K.
+    destruct (vlookup n (td_acls d)); [reflexivity | discriminate].
+  - destruct (line_ref_shape l RPool n R) as (a & b & ->).
+    rewrite (line_ref3 a b n (rp n) RPool R). cbn [key_of rename_all tupd td_pools].
+    rewrite (vlookup_rename rp (fun x => x) rp_inj).
+    specialize (K RPool n eq_refl). cbn [exists_obj] in K. unfold vhas in K.
+    destruct (vlookup n (td_pools d)); [reflexivity | discriminate].
+  - destruct l as [|a [|b [|c r]]]; rewrite R; reflexivity.
+  - destruct l as [|a [|b [|c r]]]; rewrite R; reflexivity.
 Qed.
 
-Lemma map_map_ext_in {A B C} (f : A -> B) (g : B -> C) (h : A -> C) l :
-  (forall x, In x l -> g (f x) = h x) -> map g (map f l) = map h l.
-Proof. intros H. rewrite map_map. apply map_ext_in. exact H. Qed.
+Lemma gp_sem_rename d g :
+  vhas g (td_gps d) = true ->
+  (forall b l k n, vlookup g (td_gps d) = Some b -> In l b -> line_ref l = Some (k, n) -> exists_obj k n d = true) ->
+  gp_sem (rename_all d) (rg g) = gp_sem d g.
+Proof.
+  unfold vhas. destruct (vlookup g (td_gps d)) as [b|] eqn:L; [|discriminate]. intros _ K.
+  pose proof (@vlookup_rename block block rg (map rename_leaf) rg_inj g (td_gps d)) as E. rewrite L in E. cbn [option_map] in E.
+  assert (E2 : vlookup (rg g) (td_gps (rename_all d)) = Some (map rename_leaf b)) by exact E.
+  unfold gp_sem. rewrite E2, L. rewrite map_map. do 2 f_equal. apply map_ext_in. intros l Hl.
+  apply expand_leaf_rename. intros k n R. exact (K b l k n eq_refl Hl R).
+Qed.
+
+Lemma In_gp_block d g b : vlookup g (td_gps d) = Some b -> In b (all_blocks d).
+Proof.
+  intros L. unfold all_blocks. apply in_or_app. left. apply in_map_iff. exists (g, b). split; [reflexivity|].
+  revert L. generalize (td_gps d). intros l. induction l as [|[k v] l IH]; cbn [vlookup]; [discriminate|].
+  destruct (String.eqb g k) eqn:E; [intros H; injection H as ->; apply String.eqb_eq in E; subst; left; reflexivity | intros H; right; exact (IH H)].
+Qed.
+
+Lemma expand_line_rename d l : refs_known d ->
+  (forall k n, line_ref l = Some (k, n) -> exists_obj k n d = true) ->
+  expand_line (rename_all d) (rename_line l) = expand_line d l.
+Proof.
+  intros RK K. unfold rename_line, expand_line.
+  destruct (line_ref l) as [[[| |] n]|] eqn:R.
+  - (* ACL reference: rename_leaf keeps the kind *)
+    destruct (line_ref_shape l RAcl n R) as (a & b & ->).
+    assert (E : rename_leaf [a; b; n] = [a; b; ra n]) by (unfold rename_leaf; rewrite R; reflexivity).
+    rewrite E, (line_ref3 a b n (ra n) RAcl R). rewrite <- E. apply expand_leaf_rename.
+    intros k0 n0 R0. apply K. rewrite <- R. exact R0.
+  - destruct (line_ref_shape l RPool n R) as (a & b & ->).
+    assert (E : rename_leaf [a; b; n] = [a; b; rp n]) by (unfold rename_leaf; rewrite R; reflexivity).
+    rewrite E, (line_ref3 a b n (rp n) RPool R). rewrite <- E. apply expand_leaf_rename.
+    intros k0 n0 R0. apply K. rewrite <- R. exact R0.
+  - destruct (line_ref_shape l RGp n R) as (a & ->).
+    rewrite (line_ref2 a n (rg n) RGp R). cbn [key_of].
+    rewrite (gp_sem_rename d n (K RGp n eq_refl)); [reflexivity|].
+    intros b l k m L Hl Rl. exact (RK b l k m (In_gp_block d n b L) Hl Rl).
+  - assert (E : rename_leaf l = l) by (unfold rename_leaf; rewrite R; destruct l as [|a [|b [|c r]]]; reflexivity).
+    rewrite E, R. unfold expand_leaf. rewrite R. reflexivity.
+Qed.
 
 Lemma flat_map_map' {A B C} (g : A -> B) (f : B -> list C) l : flat_map f (map g l) = flat_map (fun x => f (g x)) l.
 Proof. induction l as [|x l IH]; [reflexivity|]. cbn [map flat_map]. rewrite IH. reflexivity. Qed.
@@ -94,49 +158,41 @@ Proof.
   induction l as [|x l IH]; intros H; [reflexivity|]. cbn [flat_map]. rewrite (H x (or_introl eq_refl)).
   rewrite IH; [reflexivity|]. intros y Hy. apply H. right. exact Hy.
 Qed.
+Lemma map_map_ext_in {A B C} (f : A -> B) (g : B -> C) (h : A -> C) l :
+  (forall x, In x l -> g (f x) = h x) -> map g (map f l) = map h l.
+Proof. intros H. rewrite map_map. apply map_ext_in. exact H. Qed.
 
-Theorem tsem_independent_of_group_policy_names d : gps_known d -> tsem (rename_gps d) = tsem d.
+Theorem tsem_independent_of_names d : refs_known d -> tsem (rename_all d) = tsem d.
 Proof.
   intros K. unfold tsem. f_equal. f_equal.
-  - (* tunnel-groups *)
-    cbn [rename_gps tupd td_tgs]. apply map_map_ext_in. intros [t [ty secs]] Ht.
+  - cbn [rename_all tupd td_tgs]. apply map_map_ext_in. intros [t [ty secs]] Ht.
     unfold tg_sem. cbn [fst snd]. do 6 f_equal.
     rewrite flat_map_map'. apply flat_map_ext_in'. intros [sec b] Hs. cbn [fst snd].
     rewrite map_map. apply map_ext_in. intros l Hl. f_equal. f_equal.
-    apply expand_line_rename. intros g R.
-    apply (K b l g); [|exact Hl|exact R].
+    apply expand_line_rename; [exact K|]. intros k n R.
+    apply (K b l k n); [|exact Hl|exact R].
     unfold all_blocks. apply in_or_app. right. apply in_or_app. left.
     apply in_flat_map. exists (t, (ty, secs)). split; [exact Ht|]. cbn [snd].
     apply in_map_iff. exists (sec, b). split; [reflexivity | exact Hs].
-  - (* users *)
-    cbn [rename_gps tupd td_users]. apply map_map_ext_in. intros [u b] Hu.
+  - cbn [rename_all tupd td_users]. apply map_map_ext_in. intros [u b] Hu.
     unfold user_sem. cbn [fst snd]. do 5 f_equal.
     rewrite map_map. apply map_ext_in. intros l Hl.
-    apply expand_line_rename. intros g R.
-    apply (K b l g); [|exact Hl|exact R].
+    apply expand_line_rename; [exact K|]. intros k n R.
+    apply (K b l k n); [|exact Hl|exact R].
     unfold all_blocks. apply in_or_app. right. apply in_or_app. right.
     apply in_map_iff. exists (u, b). split; [reflexivity | exact Hu].
 Qed.
 
-Corollary tequiv_up_to_group_policy_names a b : gps_known a -> tequiv (rename_gps a) b = tequiv a b.
-Proof. intros K. unfold tequiv. rewrite (tsem_independent_of_group_policy_names a K). reflexivity. Qed.
+Corollary tequiv_up_to_names a b : refs_known a -> tequiv (rename_all a) b = tequiv a b.
+Proof. intros K. unfold tequiv. rewrite (tsem_independent_of_names a K). reflexivity. Qed.
 End Rename.
 
-(* non-vacuity: a configuration with a user and a tunnel-group that share a group-policy *)
+(* non-vacuity: a user and a tunnel-group share a group-policy with a filter and a pool *)
 Example rename_example :
-  let d := {| td_acls := [("f", [["extended"; "permit"; "ip"; "any4"; "any4"]])]; td_pools := [];
-              td_gps := [("G", [["vpn-filter"; "value"; "f"]; ["vpn-idle-timeout"; "60"]])];
+  let d := {| td_acls := [("f", [["extended"; "permit"; "ip"; "any4"; "any4"]])]; td_pools := [("p", ["10.1.1.0-10.1.1.7"; "mask"; "255.255.255.248"])];
+              td_gps := [("G", [["vpn-filter"; "value"; "f"]; ["address-pools"; "value"; "p"]; ["vpn-idle-timeout"; "60"]])];
               td_tgs := [("10.1.1.1", ("ipsec-l2l", [("general-attributes", [["default-group-policy"; "G"]])]))];
-              td_users := [("u@x", [["vpn-group-policy"; "G"]])]; td_mode := TTop |} in
-  tsem (rename_gps (fun s => s ++ "-DRC-0") d) = tsem d /\ td_gps (rename_gps (fun s => s ++ "-DRC-0") d) <> td_gps d.
-Proof. split; [vm_compute; reflexivity | vm_compute; discriminate]. Qed.
-
-(* the premise, decidable: every reference to a group-policy names one that exists *)
-Definition gps_knownb (d : tdev) : bool :=
-  forallb (fun b : block => forallb (fun l => match line_ref l with Some (RGp, g) => vhas g (td_gps d) | _ => true end) b) (all_blocks d).
-Lemma gps_knownb_sound d : gps_knownb d = true -> gps_known d.
-Proof.
-  unfold gps_knownb, gps_known. intros H b l g Hb Hl R.
-  rewrite forallb_forall in H. specialize (H b Hb). rewrite forallb_forall in H. specialize (H l Hl).
-  rewrite R in H. exact H.
-Qed.
+              td_users := [("u@x", [["vpn-group-policy"; "G"]; ["vpn-filter"; "value"; "f"]])]; td_mode := TTop |} in
+  let r := fun s => s ++ "-DRC-0" in
+  refs_knownb d = true /\ tsem (rename_all r r r d) = tsem d /\ td_gps (rename_all r r r d) <> td_gps d.
+Proof. intros d r. split; [|split]; vm_compute; [reflexivity | reflexivity | discriminate]. Qed.
